@@ -154,7 +154,15 @@ func pathTriesToEscape(relPath string) bool {
 func checkOutputsAreWithinRepository(target *model.Target) (errs []error) {
 	workspaceRoot := config.Global.WorkspaceRoot
 
-	for _, output := range target.FileOutputs() {
+	// Both file and directory outputs are paths relative to the package
+	var outputPaths []string
+	for _, output := range target.AllOutputs() {
+		if output.IsFile() || output.Type == "dir" {
+			outputPaths = append(outputPaths, output.Identifier)
+		}
+	}
+
+	for _, output := range outputPaths {
 		if path.IsAbs(output) {
 			errs = append(errs, fmt.Errorf(
 				"output %s for target %s is not relative",
